@@ -110,11 +110,15 @@ func (w *c16shWalk) stmts(l []ast.Stmt, when string, inLoop bool, hc string) err
 			}
 			k := exprKey(x.Cond)
 			var thenWhen, elseWhen string
-			switch k {
-			case w.recv + ".healthChecker != nil", "nil != " + w.recv + ".healthChecker":
-				thenWhen, elseWhen = ".hasChecker", ".noChecker"
-			case w.recv + ".healthChecker == nil", "nil == " + w.recv + ".healthChecker":
-				thenWhen, elseWhen = ".noChecker", ".hasChecker"
+			if be, ok := x.Cond.(*ast.BinaryExpr); ok && (be.Op == token.NEQ || be.Op == token.EQL) {
+				l, r := exprKey(be.X), exprKey(be.Y)
+				if (l == w.recv+".healthChecker" && r == "nil") || (r == w.recv+".healthChecker" && l == "nil") {
+					if be.Op == token.NEQ {
+						thenWhen, elseWhen = ".hasChecker", ".noChecker"
+					} else {
+						thenWhen, elseWhen = ".noChecker", ".hasChecker"
+					}
+				}
 			}
 			if thenWhen != "" {
 				if inLoop || when != ".always" {
